@@ -70,6 +70,7 @@ COQ_TY = {"int": "Z", "bytes": "bytes", "bool": "bool", "boollist": "list bool",
           "optint": "option Z",       # Optional[int]
           "char": "Z",                # a one-character str (the element of iterating over a str): its code point
           "optstr": "option (list Z)",
+          "optpath": "option ppath",  # Optional[pathlib.Path]
           "filebuf": "bytes",
           "stage": "stage",           # an element of SevenZipDecompressor.chain: abstract (Section variable of gen/DecompChain.v)
           "wbuf": "bytes",            # a local io.BytesIO() that is only written to: what has been written         # io.BytesIO(data) read sequentially: what is left of it
@@ -140,6 +141,13 @@ WAVE2 = {
     "check_archive_path": dict(file="helpers.py", qual="check_archive_path", kind="pure",
                                args={"arcname": "str"}, ret="bool", out="HelpersPath"),
 }
+# stage 8: `*other` of is_relative_to stands for exactly one path (every call in the package passes one)
+WAVE2["is_relative_to"] = dict(file="helpers.py", qual="is_relative_to", kind="pure", args={"my": "path", "other": "path"},
+                               ret="bool", out="HelpersPath2", vararg_one="other")
+WAVE2["get_sanitized_output_path"] = dict(file="helpers.py", qual="get_sanitized_output_path", kind="pure",
+                                          args={"fname": "str", "path": "optpath"}, ret="path", out="HelpersPath2", cwd=True)
+WAVE2["is_path_valid"] = dict(file="helpers.py", qual="is_path_valid", kind="pure", args={"target": "path", "parent": "optpath"},
+                              ret="bool", out="HelpersPath2", cwd=True)
 for _n, _c, _r in (("_test_attribute", "test_attribute", "bool"), ("_get_unix_extension", "get_unix_extension", "optint"),
                    ("archivable", "archivable", "bool"), ("is_directory", "is_directory", "bool"),
                    ("readonly", "readonly", "bool"), ("is_symlink", "is_symlink", "bool"),
@@ -335,6 +343,9 @@ for _k, _v in WAVE2.items():
 OUT_FILES = {
     # out -> (source description, Require line[, lines opening a Section, line closing it])
     "HelpersPath": ("py7zr/helpers.py", "From P7 Require Import Prelude PyPrims PyStr Path."),
+    # the lexical helpers of the extraction (C03): pathlib.Path.cwd() is the explicit parameter cwd0
+    "HelpersPath2": ("py7zr/helpers.py (is_relative_to, is_path_valid, get_sanitized_output_path)",
+                     "From P7 Require Import Prelude PyPrims PyStr Path PyPath.\nFrom P7gen Require HelpersPath."),
     "AttrDecoders": ("py7zr/py7zr.py (class ArchiveFile)", "From P7 Require Import Prelude PyPrims PyStr PyStat."),
     "CliVol": ("py7zr/cli.py (class Cli)", "From P7 Require Import Prelude PyPrims PyStr PyRe."),
     "ArcName": ("py7zr/py7zr.py (SevenZipFile._sanitize_archive_arcname)", "From P7 Require Import Prelude PyPrims PyStr PyRe."),
@@ -850,7 +861,7 @@ class FnTr:
 
     def unwrap(self, p, v, t):
         """an Optional[int] used as an int: TypeError when it is None"""
-        if t in ("optint", "optbytes", "optlist:int"):
+        if t in ("optint", "optbytes", "optlist:int", "optpath"):
             t1 = self.fresh()
             return p + ["do %s <- py_unwrap %s;" % (t1, v)], t1, t[3:]
         if t.startswith("opt:"):
@@ -1037,7 +1048,7 @@ class FnTr:
                 and not pl and (tl in ("int", "bool", "bytes", "list:int", "boollist") or tl.startswith("list:")):
             # a record field / value of a non-optional type is never None
             return [], ("false" if isinstance(e.ops[0], ast.Is) else "true"), "bool"
-        if isinstance(e.ops[0], (ast.Is, ast.IsNot)) and tr == "nonetype" and (tl in ("optint", "optbytes", "optlist:int") or tl.startswith("opt:")) and self.module is not None:
+        if isinstance(e.ops[0], (ast.Is, ast.IsNot)) and tr == "nonetype" and (tl in ("optint", "optbytes", "optlist:int", "optpath") or tl.startswith("opt:")) and self.module is not None:
             return pl, ("(negb (py_is_some %s))" if isinstance(e.ops[0], ast.Is) else "(py_is_some %s)") % l, "bool"
         if isinstance(e.ops[0], (ast.In, ast.NotIn)) and tl == "int" and tr in ("set:int", "list:int") and self.module is not None:
             v = "(py_in_ints %s %s)" % (l, r)
@@ -1448,6 +1459,12 @@ class FnTr:
                 kind, argtys, retty = WAVE2[fn]["kind"], WAVE2[fn]["args"], WAVE2[fn]["ret"]
             pre, vs = [], []
             cargs = list(args)
+            # f(*name) where name is the variadic parameter that stands for one argument
+            cargs = [a.value if isinstance(a, ast.Starred) and isinstance(a.value, ast.Name) and a.value.id == self.spec.get("vararg_one")
+                     else a for a in cargs]
+            if fn not in WHITELIST and WAVE2[fn].get("cwd"):
+                if not self.spec.get("cwd"):
+                    self.refuse(e, "call of %s, which uses pathlib.Path.cwd()" % fn)
             if kind in ("reader", "writer"):
                 if not cargs or not self.is_file(cargs[0]):
                     self.refuse(e, "call of %s without the file" % fn)
@@ -1482,7 +1499,12 @@ class FnTr:
                 if self.io != "out":
                     self.refuse(e, "writer call in non-writer")
                 return pre + ["do %s <- %s %s;" % (t1, fn, " ".join(vs)), "let out := out ++ %s in" % t1], "tt", "none"
-            return pre + ["do %s <- %s %s;" % (t1, fn, " ".join(vs))], t1, retty
+            qfn = fn
+            if fn not in WHITELIST and WAVE2[fn]["out"] != self.spec.get("out") and self.spec.get("out") == "HelpersPath2":
+                qfn = "%s.%s" % (WAVE2[fn]["out"], fn)       # a function generated into another file
+            if fn not in WHITELIST and WAVE2[fn].get("cwd"):
+                vs.append("cwd0")
+            return pre + ["do %s <- %s %s;" % (t1, qfn, " ".join(vs))], t1, retty
         self.refuse(e, "call of " + fn)
 
     def call2(self, e):
@@ -1542,6 +1564,13 @@ class FnTr:
             if t != "boollist" or ti != "bool":
                 self.refuse(e, "reduce types")
             return p + pi, "(%s %s %s)" % ("py_all" if " and " in ast.unparse(args[0]) else "py_any", i, v), "bool"
+        if d == "pathlib.Path.cwd" and self.is_module("pathlib") and not args and self.spec.get("cwd"):
+            return [], "cwd0", "path"
+        if d == "pathlib.Path" and self.is_module("pathlib") and len(args) == 1 and self.spec.get("out") == "HelpersPath2" \
+                and not isinstance(args[0], ast.Starred):
+            p0, v0, t0 = self.expr(args[0])
+            if t0 == "path":
+                return p0, v0, "path"          # Path(p) of a path object p: the same path
         if d == "pathlib.Path" and self.is_module("pathlib"):
             # pathlib.Path(s) / pathlib.Path(*segments): the path object whose raw segments are the arguments
             if len(args) == 1 and isinstance(args[0], ast.Starred):
@@ -1636,8 +1665,27 @@ class FnTr:
             if ta != "str":
                 self.refuse(e, "%s argument type %s" % (f.attr, ta))
             return p + pa, "(py_%s %s %s)" % (f.attr, v, a), "bool"
+        if t == "optpath" and self.spec.get("out") == "HelpersPath2":
+            p, v, t = self.unwrap(p, v, t)         # a method of None: AttributeError
         if t == "path" and f.attr == "is_absolute" and not args:
             return p, "(pp_is_absolute %s)" % v, "bool"
+        if t == "path" and f.attr == "as_posix" and not args and not e.keywords and self.spec.get("out") == "HelpersPath2":
+            return p, "(pp_str %s)" % v, "str"          # posix flavour: str(path)
+        if t == "path" and f.attr == "joinpath" and len(args) == 1 and self.spec.get("out") == "HelpersPath2":
+            pa, a, ta = self.expr(args[0])
+            if ta == "optpath":
+                pa, a, ta = self.unwrap(pa, a, ta)
+            if ta == "str":
+                return p + pa, "(pp_joinpath %s %s)" % (v, a), "path"
+            if ta == "path":
+                return p + pa, "(pp_joinpath_p %s %s)" % (v, a), "path"
+            self.refuse(e, "joinpath argument type " + ta)
+        if t == "path" and f.attr == "relative_to" and len(args) == 1 and self.spec.get("out") == "HelpersPath2":
+            pa, a, ta = self.expr(args[0])
+            if ta != "path":
+                self.refuse(e, "relative_to argument type " + ta)
+            t1 = self.fresh()
+            return p + pa + ["do %s <- pp_relative_to %s %s;" % (t1, v, a)], t1, "path"       # ValueError when not below
         if self.spec.get("out") in ("ArchiveinfoRecords", "ArchiveinfoSig", "DecompChain") and len(args) == 1 and isinstance(args[0], ast.Constant) \
                 and args[0].value == "utf-16LE" and not e.keywords:
             t1 = self.fresh()
@@ -2313,9 +2361,9 @@ class FnTr:
                 and not (self.spec.get("out") in ("ArchiveinfoRecords", "ArchiveinfoSig", "DecompChain")):
             # `if x is None:` / `if x is not None:` on an Optional[int] variable: a match that rebinds x as the int
             x = st.test.left
-            if not (isinstance(x, ast.Name) and self.ty.get(x.id) in ("optint", "optmatch2")):
+            if not (isinstance(x, ast.Name) and self.ty.get(x.id) in ("optint", "optmatch2", "optpath")):
                 self.refuse(st, "`is None` test on something that is not an Optional variable")
-            inner = {"optint": "int", "optmatch2": "match2"}[self.ty[x.id]]
+            inner = {"optint": "int", "optmatch2": "match2", "optpath": "path"}[self.ty[x.id]]
             none_body, some_body = (st.body, st.orelse) if isinstance(st.test.ops[0], ast.Is) else (st.orelse, st.body)
             saved = dict(self.ty)
             a = self.block(none_body, cont)
@@ -2423,6 +2471,24 @@ class FnTr:
                     continue
                 self.refuse(st, "raise form")
             return pre + ["Err %s" % EXC_ERR.get(x.func.id, "EOther")]
+        if isinstance(st, ast.Try) and self.spec.get("out") == "HelpersPath2" and len(st.body) == 1 and not st.orelse and not st.finalbody \
+                and len(st.handlers) == 1 and isinstance(st.handlers[0].type, ast.Name) and st.handlers[0].type.id == "ValueError" \
+                and st.handlers[0].name is None and "ValueError" not in self.local_names() \
+                and isinstance(st.body[0], ast.Expr) and isinstance(st.body[0].value, ast.Call) \
+                and isinstance(st.body[0].value.func, ast.Attribute) and st.body[0].value.func.attr == "relative_to" \
+                and len(st.body[0].value.args) == 1 and not st.body[0].value.keywords:
+            # try: a.relative_to(b)  except ValueError: H   -- PurePath.relative_to (no walk_up) raises ValueError exactly when
+            # a is not b or below it (pp_is_relative_to; compared with pathlib by harness/prims.py); its value is dropped here
+            c = st.body[0].value
+            pa, a, ta = self.expr(c.func.value)
+            pb, b, tb = self.expr(c.args[0])
+            if ta != "path" or tb != "path":
+                self.refuse(st, "relative_to on %s, %s" % (ta, tb))
+            saved = dict(self.ty)
+            h = self.block(st.handlers[0].body, cont)
+            self.ty = dict(saved)
+            ok = cont()
+            return pa + pb + ["if (pp_is_relative_to %s %s) then" % (a, b)] + ["  " + x for x in ok] + ["else"] + h
         if isinstance(st, ast.For):
             return self.forloop(st, cont)
         if isinstance(st, ast.While) and self.module is not None:
@@ -2855,7 +2921,17 @@ class FnTr:
             if not params or params[0] != "self":
                 self.refuse(node, "method without self")
             params = params[1:]
-        if self.module is not None and (node.args.vararg or node.args.kwarg or node.args.kwonlyargs or node.args.posonlyargs):
+        if self.spec.get("vararg_one") and node.args.vararg is not None and node.args.vararg.arg == self.spec["vararg_one"] \
+                and not (node.args.kwarg or node.args.kwonlyargs or node.args.posonlyargs):
+            # `*name` that stands for exactly one argument: the only uses allowed are `f(*name)`
+            va = node.args.vararg.arg
+            for n in ast.walk(node):
+                if isinstance(n, ast.Name) and n.id == va:
+                    par = next((q for q in ast.walk(node) if isinstance(q, ast.Starred) and q.value is n), None)
+                    if par is None:
+                        self.refuse(node, "the variadic parameter %s is used other than as *%s" % (va, va))
+            params = params + [va]
+        elif self.module is not None and (node.args.vararg or node.args.kwarg or node.args.kwonlyargs or node.args.posonlyargs):
             self.refuse(node, "parameter kinds")
         if list(self.argtys.keys()) != params:
             self.refuse(node, "parameter list %r differs from the whitelist %r" % (params, list(self.argtys)))
@@ -2875,6 +2951,12 @@ class FnTr:
                 self.refuse(node, "a variable named pos0")
             self.ty["pos0"] = "int"
             sig = "(pos0 : Z) " + sig
+        if self.spec.get("cwd"):
+            # pathlib.Path.cwd(): the path object of the current directory, an explicit parameter
+            if "cwd0" in self.ty or "cwd0" in self.local_names():
+                self.refuse(node, "a variable named cwd0")
+            self.ty["cwd0"] = "path"
+            sig = (sig + " (cwd0 : ppath)").strip()
         if self.kind in ("objfun", "objproc", "classinit"):
             cls = self.spec["cls"]
             for f, t in self.fields.items():
@@ -3004,6 +3086,8 @@ def placeholder(name, spec):
         sig = "(fuel : nat) " + sig
     if spec.get("tell"):
         sig = "(pos0 : Z) " + sig
+    if spec.get("cwd"):
+        sig = (sig + " (cwd0 : ppath)").strip()
     rt = coq_ty(spec["ret"]) if spec["ret"] in COQ_TY else "unit"
     if spec["kind"] == "objmethod":
         rt = "(%s * (%s))" % (rt, " * ".join(coq_ty(t) for _, t in spec["state"].values()))
